@@ -71,8 +71,10 @@ MANIFEST = {
                   "(two invariants carried through every primitive: sharedMut = [] and all identities below the counter); dict-subclass "
                   "values are a kind of their own (probed: copied with their entries, written in place), F29/F31 kept as regression "
                   "theorems. Outside: aliasing inside one value, objects of user classes, link compute_fn bodies, jsonnet/ext_vars, "
-                  "fsspec/url paths; os.environ / sys.argv / cwd are observed by the oracle and covered in the model only through the "
-                  "bracket theorems.",
+                  "fsspec/url paths. os.environ, sys.argv and the working directory are locations of the history machine "
+                  "(C08_history_process_state: unchanged / restored after any history whose operations may each raise before, inside "
+                  "or after their context managers), tied to Gen/Brackets (reset in finally) and to 25 live process-state probes "
+                  "(Gen/HeapSites.processProbes, successful and failing calls); the oracle observes them around every real call.",
 }
 
 FINDING = "C08-ordereddict-shared"
